@@ -296,8 +296,12 @@ def hint_writers(ctx, rule, crate, tag=""):
                    where_call(b, i), "hint bits are written only when a package's candidates arrive")
     ctx.floor(rule + tag, "writer of hint bits", n, 1)
     # the bit vector only grows and bits are only ever set: a hint once recorded is never lost
+    writer_roots = {strip_generics(b.root or b.key) for b in crate.bodies
+                    if q.calls_on_field(b, "std::cell::RefCell::borrow_mut", CACHE_ADT, "hint_dependencies_available")}
     for b in crate.bodies:
-        if not q.calls_on_field(b, "std::cell::RefCell::borrow_mut", CACHE_ADT, "hint_dependencies_available"):
+        direct = bool(q.calls_on_field(b, "std::cell::RefCell::borrow_mut", CACHE_ADT, "hint_dependencies_available"))
+        in_closure = b.kind == "Closure" and b.root and strip_generics(b.root) in writer_roots
+        if not direct and not in_closure:
             continue
         crs_ = ()
         cs = q.conds(b, crs_)
@@ -307,7 +311,9 @@ def hint_writers(ctx, rule, crate, tag=""):
                                                          "resize_with", "swap_remove", "remove", "drain", "split_off", "shrink_to_fit", "set_elements"):
                 continue
             lv = q.leaves(b, t["args"][0])
-            if not _reads_hint_bits(lv):
+            p0 = operand_place(t["args"][0])
+            bitvec_recv = p0 is not None and ("BitVec" in b.local_ty(p0["l"]) or "BitSlice" in b.local_ty(p0["l"]))
+            if not _reads_hint_bits(lv) and not (in_closure and (bitvec_recv or "bitvec" in f["path"])):
                 continue
             nm = f["name"]
             if nm == "shrink_to_fit":
@@ -323,8 +329,8 @@ def hint_writers(ctx, rule, crate, tag=""):
                     if c.kind != "cmp" or c.op not in ("Le", "Lt", "Ge", "Gt"):
                         continue
                     la, lb = q.leaves(b, c.a), q.leaves(b, c.b)
-                    a_len = "call:len" in la and _reads_hint_bits(la)
-                    b_len = "call:len" in lb and _reads_hint_bits(lb)
+                    a_len = "call:len" in la and (_reads_hint_bits(la) or in_closure)
+                    b_len = "call:len" in lb and (_reads_hint_bits(lb) or in_closure)
                     if a_len == b_len:
                         continue
                     smaller = (c.op in ("Le", "Lt")) == a_len       # edge on which len is the smaller side
@@ -604,14 +610,34 @@ def hint_arms(ctx, crate, crs, tag, rule="availability"):
     b = body_by_key(crate, CACHE + "get_or_cache_candidates", coroutine=True)
     if b is None:
         return
-    sets = [(i, t) for i, t in b.calls() if t.get("f") and t["f"]["name"] == "set" and "bitvec" in t["f"]["path"]]
+    TR = q.TRANSPARENT | {"resolvo::internal::arena::ArenaId::to_usize", "std::iter::Iterator::next",
+                          "bitvec::macros::internal::core::slice::iter", "std::iter::Iterator::map", "std::iter::Iterator::copied",
+                          "std::iter::Iterator::cloned"}
+    sets = [(b, i, t, None) for i, t in b.calls() if t.get("f") and t["f"]["name"] == "set" and "bitvec" in t["f"]["path"]]
+    # the same loop written as `slice.iter().map(to_usize).for_each(|idx| { .. set(idx, true) })`: the set sits in a closure of this
+    # function and its index is the closure's parameter; the hinted slice is then the receiver of the for_each
+    for cb in crate.bodies:
+        if cb.kind == "Closure" and cb.root and strip_generics(cb.root) == strip_generics(b.root or b.key) and cb is not b:
+            for i, t in cb.calls():
+                if t.get("f") and t["f"]["name"] == "set" and "bitvec" in t["f"]["path"]:
+                    recv = None
+                    for pi, pt in b.calls():
+                        if pt.get("f") and pt["f"]["name"] in ("for_each", "try_for_each") and len(pt["args"]) >= 2:
+                            cd = b.origin(pt["args"][1])
+                            if cd["k"] == "rvalue" and cd["r"].get("ak") == "closure" and crate.by_path.get(cd["r"]["def"]) is cb:
+                                recv = pt["args"][0]
+                    sets.append((cb, i, t, recv))
     ctx.floor(rule + tag, "hint bit set site", len(sets), 1)
-    for i, t in sets:
+    for sb, i, t, recv in sets:
         v = t["args"][2]
-        ctx.ob(rule + tag, b.key, "hint-bit-set-true", v.get("k") == "const" and v.get("v") is True, where_call(b, i),
+        ctx.ob(rule + tag, b.key, "hint-bit-set-true", v.get("k") == "const" and v.get("v") is True, where_call(sb, i),
                "hinted candidates are marked available")
-        d, chain = q.origin_thru(b, t["args"][1], transparent=q.TRANSPARENT | {
-            "resolvo::internal::arena::ArenaId::to_usize", "std::iter::Iterator::next", "bitvec::macros::internal::core::slice::iter"})
+        if sb is b:
+            d, chain = q.origin_thru(b, t["args"][1], transparent=TR)
+        elif recv is not None:
+            d, chain = q.origin_thru(b, recv, transparent=TR)
+        else:
+            d, chain = {"k": "?"}, []
         # d should be the slice local assigned in the three arms
         ok = False
         detail = "index does not derive from an element of the hinted slice (%s)" % d["k"]
@@ -634,7 +660,7 @@ def hint_arms(ctx, crate, crs, tag, rule="availability"):
                     kinds.add("All:all")
             ok = kinds == {"None:empty", "Some:listed", "All:all"}
             detail = "arms found: %s" % sorted(kinds)
-        ctx.ob(rule + tag, b.key, "hint-arms", ok, where_call(b, i), detail)
+        ctx.ob(rule + tag, b.key, "hint-arms", ok, where_call(sb, i), detail)
 
 
 def filter_siblings(ctx, crate, crs, tag, rule="filter-siblings"):
